@@ -11,7 +11,7 @@ EXE = os.path.join(HB, 'target', 'debug', 'verif-harness-nomutex')
 
 # case -> (has an owned leaf?, the configured value as the harness prints it)
 CASES = {
-    'o_tok.some': (True, 'L1'), 'o_tok.next': (True, 'L1'), 'o_tok.each': (True, 'L1'), 'o_tok.n2': (True, 'L1'),
+    'o_tok.some': (True, 'L1'), 'o_tok.some.once-then': (True, 'L1'), 'o_tok.next': (True, 'L1'), 'o_tok.each': (True, 'L1'), 'o_tok.n2': (True, 'L1'),
     'r_tok.some': (False, 'L1'), 's_opt.some': (False, 'S(L1)'),
     's_res.err.some': (True, 'E(L2)'), 's_res.ok.some': (False, 'O(L1)'), 's_res.err.each': (True, 'E(L2)'),
     'd_vec_res.mixed.some': (True, 'O(L1),E(L2),O(L3),E(L4)'), 'd_vec_res.err.next': (True, 'E(L7)'),
@@ -39,7 +39,7 @@ def report(rep, prop):
         return
     shown = 0
     for name, (owned, val) in CASES.items():
-        single_use = name.endswith(('.some', '.next'))
+        single_use = name.endswith(('.some', '.next', '.once-then'))
         got = seen[name]
         if owned and single_use:
             ok = got.startswith('new-panic:') and 'Mutex' in got
